@@ -422,7 +422,10 @@ impl ReadBehaviour {
             permute_fields: !struct_as_seq && r.chance(2, 3),
             struct_as_seq,
             widen_ints: r.chance(1, 2),
-            integral_floats_as_ints: r.chance(1, 3),
+            // not generated: no mainstream self-describing serde format turns an
+            // integral f64 into an integer on its own, so a Deserialize that insists
+            // on a float there is not wrong (the draw keeps the stream aligned)
+            integral_floats_as_ints: r.chance(1, 3) && false,
             owned_keys: r.chance(1, 2),
             seed: r.next(),
         }
